@@ -66,6 +66,7 @@ def gen_case(rng, tier):
             op["ds"] = [rng.randrange(nd) for _ in range(k)]
             op["n_jobs"] = rng.choice(NJOBS)
             op["container"] = rng.choice(("list", "list", "tuple"))
+            op["form"] = rng.choice(("f64", "f64", "f64", "lists", "i64", "stack3d", "view"))
             if kind == "empty-in-collection":
                 op["empty_at"] = rng.randrange(k + 1)
         elif kind == "union":
@@ -96,6 +97,11 @@ def gen_case(rng, tier):
                                                  "n_jobs": rng.choice((None, 2, 2, 3)), "container": "list"})
     return {"inputs": {"cfg": cfg, "cfg2": cfg2, "dgms": dgms}, "ops": ops,
             "config": {"parallel_mode": rng.choice(MODES), "p_switch": rng.choice((3, 8, 30))}}
+
+
+def api_digest(obj):
+    from props import c19_api
+    return c19_api.digest_args(obj)
 
 
 def _close(a, b, scale, rel=1e-10):
@@ -214,7 +220,22 @@ def _run(case, sched, world, cfg, dg_json):
                 at = min(int(op.get("empty_at", 0)), len(coll))
                 coll.insert(at, np.zeros((0, 2)))
                 want.insert(at, np.zeros(resx))
-            if op.get("container") == "tuple":
+            form = op.get("form", "f64")
+            handed = None
+            if form == "lists":
+                coll = [c_.tolist() if len(c_) else c_ for c_ in coll]           # nested lists (empty stays an array)
+            elif form == "i64" and all(len(c_) and np.all(c_ == np.round(c_)) for c_ in coll):
+                coll = [c_.astype(np.int64) for c_ in coll]
+            elif form == "view":
+                wide = [np.full((len(c_), 4), 99.0) for c_ in coll]
+                for w_, c_ in zip(wide, coll):
+                    w_[:, 0:3:2] = c_
+                coll = [w_[:, 0:3:2] for w_ in wide]                              # non-contiguous views
+            elif form == "stack3d" and len(coll) >= 2 and len({len(c_) for c_ in coll}) == 1 and len(coll[0]) > 0:
+                coll = np.stack(coll)                                             # one 3-D array of diagrams
+            if form != "f64":
+                handed = api_digest(coll)
+            if op.get("container") == "tuple" and not isinstance(coll, np.ndarray):
                 coll = tuple(coll)
             if use2:
                 site = site + "[second-imager-same-resolution]"
@@ -223,6 +244,9 @@ def _run(case, sched, world, cfg, dg_json):
                 par_calls += 1
             if not isinstance(out, (list, tuple)) and not (isinstance(out, np.ndarray) and out.ndim == 3):
                 out = list(out) if hasattr(out, "__iter__") and not isinstance(out, np.ndarray) else out
+            if handed is not None and api_digest(list(coll) if isinstance(coll, tuple) else coll) != handed:
+                raise Violation("inputs-untouched", site, "diagram-modified/" + form,
+                                "the collection handed over as %s was modified by the call" % form, opi)
             if isinstance(out, np.ndarray) and out.ndim == 2:
                 raise Violation("collection=>one-image-per-diagram", site, "single-image",
                                 "a collection of %d diagrams returned one image" % len(coll), opi)
